@@ -37,7 +37,7 @@ def run(ctx, crate):
                 if m in ("unwrap_or_else", "unwrap_or_default"):
                     continue
                 # instance key: the producer of the unwrapped value
-                sl = b.slice(c.args[0], through_calls=False)
+                sl = b.slice_args(c, [0], through_calls=False)
                 prod = sorted({x.path for x in sl.calls if K.is_plain_io_result(b.locals[x.dest["l"]])}) or ["?"]
                 ctx.bad(rule, "%s(%s)" % (m, ",".join(prod)), b.name, c.loc(),
                         "io::Result from %s is consumed by Result::%s: an I/O error panics here (while locks are held => poison)" % (",".join(prod), m),
@@ -155,11 +155,11 @@ def run(ctx, crate):
                     if d["kind"] == "call" and d["call"].bb == dc.bb:
                         continue
                     src = d["rv"] if d["kind"] == "assign" else None
-                    sl = b.slice([d["rv"].get("op"), d["rv"].get("place"), d["rv"].get("ops", [])] if src else [a for a in d["call"].args], through_calls=True)
+                    sl = b.slice(b.rv_operands(d["rv"]) if src else [a for a in d["call"].args], through_calls=True, at=d.get("bb"))
                     if not any(x.bb == dc.bb for x in sl.calls):
                         # allowed: error propagation of an *earlier* failure (from_residual)
                         if d["kind"] == "call" and d["call"].matches(K.FROM_RESIDUAL):
-                            sl2 = b.slice(d["call"].args)
+                            sl2 = b.slice_args(d["call"])
                             if any(K.is_plain_io_result(b.locals[x.dest["l"]]) or "ControlFlow" in b.locals[x.dest["l"]]["ty"] for x in sl2.calls):
                                 continue
                         bad.append("bb%d" % d.get("bb"))
@@ -170,7 +170,7 @@ def run(ctx, crate):
 
 
 def producer_of(b, trycall):
-    sl = b.slice(trycall.args[0], through_calls=False)
+    sl = b.slice_args(trycall, [0], through_calls=False)
     ps = sorted({K.meth(x.generic) for x in sl.calls})
     return ",".join(ps) or "?"
 
@@ -255,7 +255,7 @@ def rule_commit_on_success(ctx, crate, rule="R-DRAW-COMMIT-ON-SUCCESS"):
         cont_edges = []
         for f in flushes:
             for tc in b.calls(K.TRY_BRANCH):
-                sl = b.slice(tc.args[0], through_calls=False)
+                sl = b.slice_args(tc, [0], through_calls=False)
                 if any(x.bb == f.bb for x in sl.calls):
                     e = K.try_edges(b, tc)
                     if e:
@@ -272,7 +272,7 @@ def rule_commit_on_success(ctx, crate, rule="R-DRAW-COMMIT-ON-SUCCESS"):
                     continue
                 tgts = refs.get(l, [])
                 if b.locals[l]["ty"].startswith("&mut") and b.locals[l].get("head") == "draw_target::VisualLines":
-                    if l in vl_params or any(t["l"] in vl_params for t in tgts):
+                    if l in vl_params or any(t[0] in vl_params for t in tgts):
                         stores.append((c.bb, None, "passed &mut to %s" % c.path))
         for bb, s, how in stores:
             n += 1
